@@ -75,12 +75,35 @@ def strategy():
        ['complete', 2, 'infeasible', 1.0]],
   ])
   return st.fixed_dictionaries({
-      'config': st.sampled_from(['small'] * 7 + ['big', 'big', 'unregistered']),
+      'config': st.sampled_from(['small'] * 6 + ['big', 'big', 'unregistered',
+                                                 'custom', 'custom']),
       'ops': st.tuples(prefix, st.lists(op, min_size=4, max_size=30)).map(
           lambda t: t[0] + t[1])})
 
 
 # ------------------------------------------------------------- deployments
+def _factory():
+  """The service's documented extension hook: a pythia.PolicyFactory that
+  knows one algorithm name more than the stock factory (served by the stock
+  grid search) and defers to the stock factory otherwise. Every deployment is
+  configured with it."""
+  from vizier import pythia
+  from vizier._src.service import policy_factory as pf
+
+  class Factory(pythia.PolicyFactory):
+
+    def __init__(self):
+      self._stock = pf.DefaultPolicyFactory()
+
+    def __call__(self, problem_statement, algorithm, policy_supporter,
+                 study_name):
+      if algorithm == 'C08_CUSTOM':
+        algorithm = 'GRID_SEARCH'
+      return self._stock(problem_statement, algorithm, policy_supporter,
+                         study_name)
+  return Factory()
+
+
 def _setup():
   """Starts the four gRPC servers of this worker process (once)."""
   if _STATE:
@@ -92,7 +115,8 @@ def _setup():
                    ('D', vizier_server.DistributedPythiaVizierServer)):
     for backend, url in (('ram', None), ('sql', 'sqlite:///:memory:')):
       _STATE[(dep, backend)] = cls(database_url=url,
-                                   early_stop_recycle_period=recycle)
+                                   early_stop_recycle_period=recycle,
+                                   policy_factory=_factory())
   return _STATE
 
 
@@ -110,6 +134,10 @@ def _select(dep, backend):
           'early_stop_recycle_period': __import__('datetime').timedelta(
               days=1)}
       _STATE['local_key'] = key
+      from vizier._src.service import pythia_service
+      local = vizier_client._create_local_vizier_servicer()  # pylint: disable=protected-access
+      local.default_pythia_service = pythia_service.PythiaServicer(
+          local, policy_factory=_factory())
   else:
     env.server_endpoint = _STATE[(dep, backend)].endpoint
   env.new_suggestion_polling_secs = 0.0
@@ -118,11 +146,12 @@ def _select(dep, backend):
 def _config(variant='small'):
   """small: 2 parameters, GRID_SEARCH. big: the same grid plus 300 single-value
   parameters (a large StudySpec: large messages, large error details).
-  unregistered: an algorithm name the policy factory does not know."""
+  unregistered: an algorithm name the policy factory does not know.
+  custom: an algorithm name only the configured custom policy factory knows."""
   from vizier.service import pyvizier as vz
   sc = vz.StudyConfig(
-      algorithm='NO_SUCH_ALGORITHM' if variant == 'unregistered'
-      else 'GRID_SEARCH')
+      algorithm={'unregistered': 'NO_SUCH_ALGORITHM',
+                 'custom': 'C08_CUSTOM'}.get(variant, 'GRID_SEARCH'))
   sc.search_space.root.add_int_param('i', 0, 3)
   sc.search_space.root.add_categorical_param('c', ['a', 'b'])
   if variant == 'big':
@@ -178,6 +207,15 @@ def _run_program(dep, backend, ops, owner, variant='small'):
   _select(dep, backend)
   trace = []
   sid = 's'
+  # the "load, else create" idiom: the study does not exist yet in this
+  # deployment (whatever the same process did against other deployments)
+  try:
+    obs = ['ok', clients.Study.from_resource_name(
+        'owners/%s/studies/%s' % (owner, sid)).resource_name]
+  except Exception as e:  # pylint: disable=broad-except
+    obs = ['exc', _exc_class(e)]
+  trace.append({'op': ['load_before_create'], 'obs': obs, 'trials': 'n/a',
+                'msg': ''})
   study = clients.Study.from_study_config(_config(variant), owner=owner,
                                           study_id=sid)
   name = study.resource_name
@@ -332,6 +370,8 @@ def _check_once(case):
           'complete', 'add_measurement', 'stop', 'early_stop', 'delete_trial',
           'trial_params', 'trial_md')):
         prev_trials = tr[i - 1]['trials'] if i else []
+        if prev_trials == 'n/a':
+          prev_trials = []
         exists = isinstance(prev_trials, list) and any(
             t['id'] == op[1] for t in prev_trials)
         study_gone = isinstance(prev_trials, str)
@@ -340,13 +380,19 @@ def _check_once(case):
           out.violate('promised/get_trial_missing_not_ResourceNotFoundError/'
                       '%s_%s' % key,
                       'step %d %r in %s/%s -> %r' % (i, op, key[0], key[1], o))
+      if op[0] == 'load_before_create' and o != [
+          'exc', 'ResourceNotFoundError']:
+        out.violate('promised/load_before_create/%s_%s' % key,
+                    'loading the not-yet-created study in %s/%s -> %r' % (
+                        key[0], key[1], o))
       if op[0] in ('from_resource_name', 'from_owner_and_id') and (
           op[1] == 'missing') and o != ['exc', 'ResourceNotFoundError']:
         out.violate('promised/%s_missing/%s_%s' % ((op[0],) + key),
                     'step %d -> %r' % (i, o))
       if op[0] == 'add_trial' and op[1] in ('out_of_space', 'missing_param'):
-        if not isinstance(tr[i - 1]['trials'] if i else [], str) and o != [
-            'exc', 'ValueError']:
+        if (tr[i - 1]['trials'] == 'n/a' or not isinstance(
+            tr[i - 1]['trials'] if i else [], str)) and o != [
+                'exc', 'ValueError']:
           out.violate('promised/add_trial_outside_space_not_ValueError/'
                       '%s_%s' % key, 'step %d %r -> %r' % (i, op, o))
       if key == ref_key:
@@ -416,35 +462,62 @@ def _parallel_once(case, dep, backend, tag):
   done = [0] * n
   barrier = threading.Barrier(n)
 
-  def cfg():
+  foreign = []  # suggestions that do not belong to the study that asked
+
+  def cfg(k):
+    # every study has its own parameter names: a suggestion computed for
+    # another study cannot pass for one of this study
     sc = vz.StudyConfig(algorithm=case['algorithm'])
-    sc.search_space.root.add_float_param('x', 0.0, 1.0)
-    sc.search_space.root.add_int_param('i', 0, 9)
+    if case['algorithm'] != 'GRID_SEARCH':
+      sc.search_space.root.add_float_param('x%d' % k, 0.0, 1.0)
+    sc.search_space.root.add_int_param('i%d' % k, 0, 19 + k)
     sc.metric_information.append(vz.MetricInformation(
         'm', goal=vz.ObjectiveMetricGoal.MAXIMIZE))
     return sc
   studies = [clients.Study.from_study_config(
-      cfg(), owner='%s-%d' % (tag, k), study_id='s') for k in range(n)]
+      cfg(k), owner='%s-%d' % (tag, k), study_id='s') for k in range(n)]
+  seen_points = [[] for _ in range(n)]
 
   def worker(k):
     try:
+      want = {'i%d' % k} | (set() if case['algorithm'] == 'GRID_SEARCH'
+                            else {'x%d' % k})
       barrier.wait(timeout=60)
       for _ in range(case['rounds']):
         got = studies[k].suggest(count=1, client_id='w')
         if len(got) != 1:
           errors[k].append('suggest returned %d trials' % len(got))
           continue
+        params = dict(got[0].parameters)
+        if set(params) != want:
+          foreign.append('study %d (parameters %s) was handed a trial with '
+                         'parameters %s' % (k, sorted(want), sorted(params)))
+        seen_points[k].append(params.get('i%d' % k))
         got[0].complete(vz.Measurement({'m': 1.0}))
         done[k] += 1
     except Exception as e:  # pylint: disable=broad-except
       errors[k].append('%s: %s' % (_exc_class(e), str(e)[:200]))
   threads = [threading.Thread(target=worker, args=(k,)) for k in range(n)]
-  for t in threads:
-    t.start()
-  for t in threads:
-    t.join(timeout=300)
+  import sys
+  old_switch = sys.getswitchinterval()
+  sys.setswitchinterval(1e-5)  # make overlapping requests likely
+  try:
+    for t in threads:
+      t.start()
+    for t in threads:
+      t.join(timeout=300)
+  finally:
+    sys.setswitchinterval(old_switch)
   hung = [k for k, t in enumerate(threads) if t.is_alive()]
-  return errors, done, hung
+  if case['algorithm'] == 'GRID_SEARCH' and not hung:
+    # a sequential client of an exhaustive grid sees every point once, in
+    # grid order, whatever other studies do at the same time
+    for k in range(n):
+      if seen_points[k] != list(range(len(seen_points[k]))):
+        foreign.append('study %d: grid search handed out %r instead of the '
+                       'first %d grid points in order' % (
+                           k, seen_points[k], len(seen_points[k])))
+  return errors, done, hung, foreign
 
 
 def check_parallel(case):
@@ -458,7 +531,12 @@ def check_parallel(case):
       for attempt in (0, 1):
         tag = 'q%d-%d-%s%s%d' % (os.getpid(), _COUNTER[0], dep, backend,
                                  attempt)
-        errors, done, hung = _parallel_once(case, dep, backend, tag)
+        errors, done, hung, foreign = _parallel_once(case, dep, backend, tag)
+        if foreign:
+          # not a transport hiccup: no retry needed to believe it
+          out.violate('parallel_clients/wrong_study_suggestion/%s_%s' % (
+              dep, backend), '%d clients on %s/%s: %s' % (
+                  case['studies'], dep, backend, '; '.join(foreign[:3])))
         bad = any(errors) or hung or any(d != case['rounds'] for d in done)
         if not bad:
           break
@@ -484,6 +562,7 @@ def families(tier):
                                     'mutation_of_completed_trial',
                                     'has_set_state', 'has_add_trial',
                                     'config_big', 'config_unregistered',
+                                    'config_custom',
                                     'suggest_returned_empty')),
       core.Family('parallel_clients', check_parallel,
                   strategy=parallel_strategy,
